@@ -9,7 +9,7 @@
    (modes_agree_full_statement) and refutes it (modes_agree_refuted: `Half(I / 2 + Y)`).
    Definitions first (Part 1), proofs after. *)
 From Coq Require Import ZArith Bool List String Floats Lia.
-Require Import X.Base.Num X.Base.NumProofs X.Base.Value X.Syn.Ast X.gen.GenHelpers X.Sem.Prim X.Sem.Sem.
+Require Import X.Base.Num X.Base.NumProofs X.Base.Value X.Syn.Ast X.gen.GenHelpers X.Sem.Prim X.Sem.Sem X.Sem.MatchesFacts.
 Require Import X.BC.ModeProofs X.Corr.Universe.
 Import ListNotations.
 Local Open Scope Z_scope.
@@ -307,18 +307,12 @@ Proof. destruct op; reflexivity. Qed.
 
 Lemma ev_matches ctx a re l r s :
   ev ctx (EMatches a re l r) s =
-  match re with
-  | Some p =>
-      rbind (ev ctx l s) (fun va s1 =>
-      lift (aloc a) s1 (as_str va) (fun x =>
-      match re_match fe p x with Some b => Done (VBool b) s1 | None => Stop ERegexp (aloc a) s1 end))
-  | None =>
-      rbind (ev ctx l s) (fun va s1 =>
-      rbind (ev ctx r s1) (fun vb s2 =>
-      lift (aloc a) s2 (as_str vb) (fun p => lift (aloc a) s2 (as_str va) (fun x =>
-      match re_match fe p x with Some b => Done (VBool b) s2 | None => Stop ERegexp (aloc a) s2 end))))
-  end.
-Proof. destruct re; reflexivity. Qed.
+  (* the pre-compiled pattern is only a shortcut for the value of the right operand (Sem/MatchesFacts.v) *)
+  rbind (ev ctx l s) (fun va s1 =>
+  rbind (ev ctx r s1) (fun vb s2 =>
+  lift (aloc a) s2 (as_str vb) (fun p => lift (aloc a) s2 (as_str va) (fun x =>
+  match re_match fe p x with Some b => Done (VBool b) s2 | None => Stop ERegexp (aloc a) s2 end)))).
+Proof. exact (eval_matches_dyn _ _ _ ctx a re l r s). Qed.
 
 Lemma ev_property ctx a x name ns s :
   ev ctx (EProperty a x name ns) s =
@@ -1101,10 +1095,7 @@ Proof.
   - (* matches *) injection E as _ Ere El Er. subst re2. ok_inv O1. ok_inv O2. rewrite !ev_matches.
     assert (Al : agree l1 l2) by (apply (IH l1 ltac:(cbn [esize] in Hn; lia) l2 El); ok_solve).
     assert (Ar : agree r1 r2) by (apply (IH r1 ltac:(cbn [esize] in Hn; lia) r2 Er); ok_solve).
-    destruct re1 as [p|].
-    + apply ragree_rbind; [apply Al|]. intros va s1. apply ragree_lift. intros subj.
-      destruct (re_match fe p subj); ra.
-    + apply ragree_rbind; [apply Al|]. intros va s1. apply ragree_rbind; [apply Ar|]. intros vb s2.
+    apply ragree_rbind; [apply Al|]. intros va s1. apply ragree_rbind; [apply Ar|]. intros vb s2.
       apply ragree_lift. intros pat. apply ragree_lift. intros subj. destruct (re_match fe pat subj); ra.
   - (* property *) injection E as _ Ex En Ens. subst nm2 ns2. ok_inv O1. ok_inv O2. rewrite !ev_property.
     apply ragree_rbind; [apply (IH x1 ltac:(cbn [esize] in Hn; lia) x2 Ex); ok_solve|]. intros v s1. ra.
